@@ -139,8 +139,19 @@ func scenarioBoardPlays(short bool) handCase {
 	return handCase{c, nil}
 }
 
+// a short stack opens the flop for more than it has (all-in for 100), the next player raises to
+// twice that: a legal minimum raise over a bet of 100
+func scenarioOverbetThenMinRaise() handCase {
+	c := &Cfg{N: 3, Banks: []int64{1000, 1000, 110}, SB: 5, BB: 10, Limit: "no", Hole: 2, DealerIdx: 0}
+	c.Deck = fullDeck(false)
+	c.Personas = []int{personaCaller, personaCaller, personaCaller}
+	script := []Op{{Name: "call", Seat: -1}, {Name: "call", Seat: -1}, {Name: "check", Seat: -1},
+		{Name: "check", Seat: -1}, {Name: "bet", Seat: -1, Amt: 150}, {Name: "raise", Seat: -1, Amt: 200}}
+	return handCase{c, script}
+}
+
 func commonScenarios() []handCase {
-	return []handCase{scenarioTieWithFoldedLevels(), scenarioHeadsUpShortBB(), scenarioSidePots(), scenarioFoldOut(), scenarioBoardPlays(false), scenarioBoardPlays(true)}
+	return []handCase{scenarioTieWithFoldedLevels(), scenarioOverbetThenMinRaise(), scenarioHeadsUpShortBB(), scenarioSidePots(), scenarioFoldOut(), scenarioBoardPlays(false), scenarioBoardPlays(true)}
 }
 
 // --- per-property engine checks ---------------------------------------------------------------
